@@ -342,7 +342,7 @@ theorem unknown_path_no_handler (env0 : Env) (gets posts : Routes) (pre : List O
     split <;> simp
 
 /-- a path that is no key of the method's dictionary is unknown -/
-theorem unknown_path_no_handler' (env0 : Env) (gets posts : Routes) (pre : List Op)
+theorem unknown_key_no_handler (env0 : Env) (gets posts : Routes) (pre : List Op)
     (m : Method) (p : Path) (ps : Params)
     (hun : ∀ e ∈ Routes.of gets posts m, e.1 ≠ p) :
     (request (after env0 gets posts pre) m p ps).2 = [] :=
